@@ -212,6 +212,11 @@ def main(argv=None):
         for r in inconclusive[:5]:
             lines.append("NOTE incomplete observation: %s" % r.replace("\n", " ")[:500])
 
+    if os.environ.get("VERIF_FUNCMAP"):
+        fm = summed("all_function_calls")
+        os.makedirs(os.path.join(VERIF, "mutants", "funcmap"), exist_ok=True)
+        with open(os.path.join(VERIF, "mutants", "funcmap", "%s.json" % pid), "w") as f:
+            json.dump(fm, f, indent=0, sort_keys=True)
     wall = round(time.time() - t0, 2)
     verdict = {0: "held on what was observed", 1: "VIOLATED", 2: "inconclusive"}[exit_code]
     lines.append("%s %s tier=%s seed=%d: %s - %d executions (%d own), %d distinct classes, %d shards, %.1fs" % (
